@@ -131,15 +131,18 @@ fn regex<'a, T: Queryable>(lhs: State<'a, T>, rhs: State<'a, T>, substr: bool) -
         _ => None,
     };
 
+    // only a pattern written as a string literal still carries its escaping backslashes
+    let literal_pattern = matches!(rhs.data, Data::Value(_));
+
     match (to_str(lhs), to_str(rhs)) {
-        (Some(lhs), Some(rhs)) => Regex::new(&prepare_regex(rhs, substr))
+        (Some(lhs), Some(rhs)) => Regex::new(&prepare_regex(rhs, substr, literal_pattern))
             .map(|re| to_state(regex(&lhs, re)))
             .unwrap_or(to_state(false)),
         _ => to_state(false),
     }
 }
 
-fn prepare_regex(pattern: String, substring: bool) -> String {
+fn prepare_regex(pattern: String, substring: bool, literal_pattern: bool) -> String {
     let pattern = if !substring {
         // match() is true only if the entire string matches: anchor the whole pattern,
         // not just its first and last alternative
@@ -147,7 +150,7 @@ fn prepare_regex(pattern: String, substring: bool) -> String {
     } else {
         pattern.to_string()
     };
-    let pattern = if pattern.contains("\\\\") {
+    let pattern = if literal_pattern && pattern.contains("\\\\") {
         pattern.replace("\\\\", "\\")
     } else {
         pattern.to_string()
